@@ -14,7 +14,7 @@ PROPS["C04"] = {
                    "output bounds must hold, operands must be unchanged. feMul/feMulGeneric and fePow2k/fePow2kGeneric run side by "
                    "side on amd64; -tags purego and -tags force32bit run the same checks on the portable and 32-bit code; the AVX2 "
                    "lanes are driven through newFieldElement2625x4/Split and through the library's own point compositions. A silent "
-                   "word wrap shows up as a wrong value. Does not prove absence of overflow for all inputs."),
+                   "word wrap shows up as a wrong value. Does not prove absence of overflow for all inputs. Configuration 386x64 (GOARCH=386 with the force64bit tag) runs the portable 64-bit limb code on a target with 32-bit int/uint."),
     "level_note": ("Trusted: math/big, verifref field model (self-tested: SqrtRatioM1 is cross-checked in every case against a second, "
                    "purely mathematical statement of the contract), rapid. Limbs beyond the documented headroom are never generated "
                    "(ToBytes-based observers excepted: reduce() documents the whole 64-bit range). The vector code documents no lane "
